@@ -824,6 +824,10 @@ def CheckProofOfWork(hash, nBits):
 
     Raises CheckProofOfWorkError
     """
+    # A compact value with the sign bit set denotes a negative (or zero) target
+    if nBits & 0x00800000:
+        raise CheckProofOfWorkError("CheckProofOfWork() : nBits below minimum work")
+
     target = uint256_from_compact(nBits)
 
     # Check range
